@@ -192,6 +192,7 @@ class State(object):
     self.path = []          # human readable branch decisions
     self.entry_args = {}    # param name -> entry value (for old())
     self.choices = []       # results of extern calls on this path (name, value)
+    self.bufs = {}          # BytesIO contents (byte algebra), keyed by the stream reference
 
   def fork(self):
     s = State()
@@ -203,6 +204,7 @@ class State(object):
     s.path = list(self.path)
     s.entry_args = self.entry_args
     s.choices = list(self.choices)
+    s.bufs = dict(self.bufs)
     return s
 
   def assume(self, b):
